@@ -379,7 +379,7 @@ def make_scripted(fsic, spec, bases=None, extra_attrs=None):
                     if d_['_' + nm].dtype.kind == 'f':
                         d_['_' + nm][t] = d_['_' + nm][t] / 2.0 + 0.25  # a contraction: the nested solve goes somewhere
             nrec['post_endo'] = [num(d_['_' + nm][t]) for nm in endo]
-            nrec['post'] = [num(d_['_' + nm][t]) for nm in check]
+            nrec['post'] = [num(d_['_' + nm][t]) for nm in (d_['check'] if isinstance(d_.get('check'), list) else check)]  # (the instance's own list, as for the outer call)
             return
         k = ctl.count[key] = ctl.count.get(key, 0) + 1
         d = self.__dict__
